@@ -90,6 +90,12 @@ CHECKS = {
    design_ref="DESIGN.md section 4 C11, 9.7",
    note="NOT decided by contracts: 3Sum/4Sum/add_dw/mul_add/dot2 ULP bounds and the fma variants (ULP bounds against the correctly rounded exact result over chains of Dekker products; see DESIGN 9.7); next at float64 on the multiplying branch is attempted in the thorough tier and not claimed.",
    technique="contract-based deductive verification: real functions executed on symbolic IEEE floats, per-path verification conditions in QF_BVFP discharged by z3 5.1 / cvc5 1.0.3"),
+ "C13": dict(
+   category="proof",
+   text="float -> fraction, proved for every finite float16/float32/float64: the real utils.float2fraction (NumPy-scalar branch) runs on a float assembled from a symbolic sign bit, a CONCRETE exponent field (one run per field value: all 31 + 255 + 2047 binades, subnormals included) and a symbolic fraction field; on every path the returned (num, denom) satisfies num * D == N * denom with N/D the IEEE-754 value of the bit pattern, denom != 0, no path raises, and every integer operation stays inside the bit-vector model (QF_BV with constant shifts, z3). The other converters of the statement (float2bin/bin2float, float2mpf/mpf2float, fraction2float, mpf2expansion/expansion2mpf, float2expansion, mpf2multiword/multiword2mpf) go through mpmath and string manipulation and are covered by a BOUNDED stand-in only (never counted as proved): native round trips and exact-value comparison on every float16 bit pattern and on float32/float64 samples over every exponent-field value.",
+   design_ref="DESIGN.md section 9.8",
+   note="Proof part: finite inputs of float2fraction only; fractions.Fraction replaced by a pair holder (gcd normalisation is the library's). Bounded part is labelled bounded in the evidence (bounded_obligations) and excluded from the obligation counts; its bound is the property's own quantifier (float16 exhaustive; float32/float64: all exponents x boundary and seeded pseudo-random fraction fields) plus seeded cross-type expansion inputs. -0.0 -> +0.0 accepted for fraction/mpf/expansion routes (formats without signed zero); the same loss through float2bin is an open known finding.",
+   technique="contract-based deductive verification (real code object on symbolic floats, exhaustive exponent split, per-path bit-vector verification conditions, z3) + bounded native stand-in for the mpmath/string converters"),
 }
 NA_PENDING = "check not built yet in this session (planned, see DESIGN.md section 4)"
 NA = {
@@ -122,7 +128,7 @@ def main():
         {"name": "E0 core", "path": "vf/core.py", "serves_properties": sorted(CHECKS), "kind_free_text": "obligation pool, z3/cvc5 portfolio, verdict protocol, evidence/replay writer"},
         {"name": "E1 symfp", "path": "vf/symfp.py", "serves_properties": ["C10"], "kind_free_text": "operation log + rounding-mode-agreement exactness queries + ring identity over exact operations"},
         {"name": "E1 dagfp", "path": "vf/dagfp.py", "serves_properties": ["C03"], "kind_free_text": "repository tracer + expansion to primitive kinds; DAG -> SMT with uninterpreted arithmetic; lemma library and ground instantiation"},
-        {"name": "E2 symrun", "path": "vf/symrun.py", "serves_properties": ["C07", "C14", "C15", "C18", "C19"], "kind_free_text": "runs real code objects on symbolic NumPy scalars / ints with shadowed builtins; decision-prefix path forking; per-path VCs"},
+        {"name": "E2 symrun", "path": "vf/symrun.py", "serves_properties": ["C07", "C11", "C13", "C14", "C15", "C18", "C19"], "kind_free_text": "runs real code objects on symbolic NumPy scalars / ints with shadowed builtins; decision-prefix path forking; per-path VCs"},
         {"name": "E3 symexpr", "path": "vf/symexpr.py", "serves_properties": ["C04"], "kind_free_text": "abstract expressions with holes: lazy shape refinement, aliasing, key-order and inference-knowledge forks over the real Rewriter/Expr code; vf/denote.py semantics; vf/witness.py native replay"},
         {"name": "E4 ring", "path": "vf/ring.py", "serves_properties": ["C12", "C16"], "kind_free_text": "canonical-form polynomial/rational-function arithmetic with path forking on zero tests"},
       ],
